@@ -21,6 +21,7 @@ COST = "(" + " + ".join("S[%d][%d] * CNTST(p, o, m, %d)" % (0, k, k) for k in ra
 
 
 def register(reg):
+    register_partition(reg)
     # number of rankings j < m in which the ordered pair (other, pivot) has status k (status: contracts/pairwise.py)
     reg.spec("def CNTST(p, o, m, k):\n"
              "    return 0 if m <= 0 else CNTST(p, o, m - 1, k) + ite(status(o[m - 1], p[m - 1]) == k, 1, 0)",
@@ -74,4 +75,53 @@ def register(reg):
                      "and not kw_before(%s) <= kw_after(%s))" % ((ARGS,) * 6),
         },
         gen=gen_where,
+    )
+
+
+# ---- the partition step of the recursion (fragment) -------------------------------------------------------------------
+def register_partition(reg):
+    from pyvc.types import Int, Obj, List
+    FK = "corankco/algorithms/kwiksort/kwiksortabs.py::KwikSortAbs."
+    W = "WHERE(positions_pivot, positions[IDOF(%s)])"
+
+    def placed(lst, rel, lo="0"):
+        return ("forall(lambda j: exists(lambda k: %s[j] == remaining_elements[k], 0, %%s) and %s[j] != pivot and %s, %s, len(%s))"
+                % (lst, lst, rel % (W % ("%s[j]" % lst)), lo, lst))
+
+    def complete(upto):
+        w = W % "remaining_elements[k]"
+        return ("forall(lambda k: implies(remaining_elements[k] != pivot, "
+                "ite(%s < 0, exists(lambda j: before[j] == remaining_elements[k], 0, len(before)), "
+                "ite(%s > 0, exists(lambda j: after[j] == remaining_elements[k], 0, len(after)), "
+                "exists(lambda j: same[j] == remaining_elements[k], 1, len(same))))), 0, %s)" % (w, w, upto))
+
+    def clauses(upto):
+        return {
+            "before_ok": placed("before", "%s < 0") % upto,
+            "after_ok": placed("after", "%s > 0") % upto,
+            "same_ok": placed("same", "%s == 0", lo="1") % upto,
+            "pivot_first": "len(same) >= 1 and same[0] == pivot",
+            "complete": complete(upto),
+        }
+
+    reg.contract(
+        FK + "_kwik_sort#partition", props=["C03", "C11"],
+        fragment={"loop": 1},
+        params=dict(self=Obj, remaining_elements=List(Int), mapping_element_id=Obj, positions=List(Int),
+                    scoring_scheme=Obj, pivot=Int, positions_pivot=Int, before=List(Int), after=List(Int),
+                    same=List(Int)),
+        requires={
+            "fresh": "len(before) == 0 and len(after) == 0 and len(same) == 1 and same[0] == pivot",
+            "ids": "forall(lambda k: 0 <= IDOF(remaining_elements[k]) and IDOF(remaining_elements[k]) < len(positions), "
+                   "0, len(remaining_elements))",
+        },
+        modifies=["before", "after", "same"],
+        opaque_calls={
+            "get": {"fn": "IDOF", "args": [0], "ret": "int", "recv": "mapping_element_id"},
+            "_where_should_it_be": {"fn": "WHERE", "args": [0, 1], "ret": "int", "recv": "self"},
+        },
+        ensures=clauses("len(remaining_elements)"),
+        loops={1: dict(inv=clauses("idx_element"))},
+        notes="partition step of KwikSort (fragment: the loop over the remaining elements; the placement decision is the "
+              "uninterpreted WHERE(row of the pivot, row of the element), proved separately for _where_should_it_be)",
     )
